@@ -3,12 +3,15 @@ package main
 import (
 	"bytes"
 	"context"
+	"dsim/simos"
 	"encoding/binary"
 	"fmt"
+	"github.com/rpcpool/yellowstone-faithful/compactindexsized"
 	"io"
 	"os"
 	"path/filepath"
 	"runtime"
+	"strconv"
 	"strings"
 	"time"
 
@@ -54,7 +57,8 @@ func c12corrupt(t *dsim.Tape, r *dsim.Rand, in []byte) ([]byte, string) {
 		b[pos] ^= 1 << bit
 		return b, fmt.Sprintf("bit %d of byte %d flipped", bit, pos)
 	case 1:
-		v := []byte{0x00, 0x01, 0xff, 0x7f, 0x80, 0x9f, 0xbf, 0x5b, 0x1b}[t.Intn(9)]
+		// (36..38: a CAR section length that leaves 0..2 bytes behind the 36-byte CID)
+		v := []byte{0x00, 0x01, 0xff, 0x7f, 0x80, 0x9f, 0xbf, 0x5b, 0x1b, 36, 37, 38}[t.Intn(12)]
 		b[pos] = v
 		return b, fmt.Sprintf("byte %d set to %#x", pos, v)
 	case 2: // a 4-byte little-endian field
@@ -120,10 +124,15 @@ func scenarioC12(x *runner.X) {
 		target = 8 // a whole sweep per run: rare
 	case u <= 3:
 		target = 9
+	case u <= 6:
+		target = 10
 	default:
 		target = (u - 4) % 8
 	}
-	names := []string{"ipld-node", "car-stream", "compact-index", "sig-exists", "slot-to-blocktime", "gsfa-files", "tx-metadata", "epoch-load-and-query", "header-field-sweep", "frame-dag"}
+	if v, err := strconv.Atoi(os.Getenv("VERIF_C12_TARGET")); err == nil && v >= 0 && v <= 10 {
+		target = v // debugging switch: one target only
+	}
+	names := []string{"ipld-node", "car-stream", "compact-index", "sig-exists", "slot-to-blocktime", "gsfa-files", "tx-metadata", "epoch-load-and-query", "header-field-sweep", "frame-dag", "ill-typed-metadata"}
 	x.Note("target", names[target])
 	desc := ""
 	var inputLen int
@@ -195,6 +204,11 @@ func scenarioC12(x *runner.X) {
 			var bad []byte
 			bad, desc = c12corrupt(t, r, w.CAR)
 			desc = "CAR: " + desc
+			carFile := filepath.Join(x.TempDir(), "corrupt.car")
+			os.WriteFile(carFile, bad, 0o644)
+			run("index-all object count", len(bad), func() {
+				carCountItemsByFirstByte(carFile) // the first pass of `index all` over the CAR
+			})
 			run("carreader", len(bad), func() {
 				rd, err := carreader.New(io.NopCloser(bytes.NewReader(bad)))
 				if err != nil {
@@ -458,6 +472,85 @@ func scenarioC12(x *runner.X) {
 			if !bounded {
 				x.Failf("oracle", "corrupted frame-dag: work out of proportion to the input", "%s: more than %d frame fetches for %d stored frames", desc, 200*depth, depth)
 			}
+		case 10:
+			// an index file that is well-formed as a container but whose identity metadata has values of
+			// the wrong length or content (the metadata block is length-prefixed key/value pairs: a
+			// damaged length byte produces exactly this): built with the real container builder
+			role := []string{"cid_to_offset_and_size", "slot_to_cid", "sig_to_cid"}[t.Intn(3)]
+			kind := map[string][]byte{"cid_to_offset_and_size": indexes.Kind_CidToOffsetAndSize, "slot_to_cid": indexes.Kind_SlotToCid, "sig_to_cid": indexes.Kind_SigToCid}[role]
+			vs := map[string]uint{"cid_to_offset_and_size": 9, "slot_to_cid": 36, "sig_to_cid": 36}[role]
+			epochLen := t.Pick(3, 0, 1, 7, 8, 9, 16)
+			rootMode := t.Intn(4)
+			netMode := t.Intn(3)
+			desc = fmt.Sprintf("%s with ill-typed metadata: epoch value of %d bytes, root mode %d, network mode %d", role, epochLen, rootMode, netMode)
+			dir := filepath.Join(x.TempDir(), "illmeta")
+			os.MkdirAll(dir, 0o755)
+			tmpB := filepath.Join(dir, "tmp") // deleted by the builder's Close
+			os.MkdirAll(tmpB, 0o755)
+			b, err := compactindexsized.NewBuilderSized(tmpB, 4, vs)
+			if err != nil {
+				dsim.Active().Fail("harness", "NewBuilderSized", err.Error())
+			}
+			b.SetKind(kind)
+			b.Metadata().Add(indexmeta.MetadataKey_Epoch, r.Bytes(epochLen))
+			switch rootMode {
+			case 0:
+				b.Metadata().Add(indexmeta.MetadataKey_RootCid, w.Root.Bytes())
+			case 1:
+				b.Metadata().Add(indexmeta.MetadataKey_RootCid, []byte{})
+			case 2:
+				b.Metadata().Add(indexmeta.MetadataKey_RootCid, r.Bytes(5))
+			}
+			switch netMode {
+			case 0:
+				b.Metadata().Add(indexmeta.MetadataKey_Network, []byte("mainnet"))
+			case 1:
+				b.Metadata().Add(indexmeta.MetadataKey_Network, []byte{})
+			}
+			for i := 0; i < 4; i++ {
+				b.Insert(r.Bytes(8), r.Bytes(int(vs)))
+			}
+			path := filepath.Join(dir, "ill.index")
+			f, err := simos.Create(path)
+			if err != nil {
+				dsim.Active().Fail("harness", "create", err.Error())
+			}
+			serr := b.Seal(ctx, f)
+			f.Close()
+			b.Close()
+			if serr != nil {
+				x.Probe("c12.illmeta_build_refused")
+				break
+			}
+			bad, err := os.ReadFile(path)
+			if err != nil || len(bad) == 0 {
+				dsim.Active().Fail("harness", "the crafted index file is missing", fmt.Sprint(err))
+			}
+			run("open+meta", len(bad), func() {
+				rd := &c12ra{b: bad}
+				switch role {
+				case "cid_to_offset_and_size":
+					if ix, err := indexes.OpenWithReader_CidToOffsetAndSize(rd); err == nil {
+						ix.Meta()
+					}
+				case "slot_to_cid":
+					if ix, err := indexes.OpenWithReader_SlotToCid(rd); err == nil {
+						ix.Meta()
+					}
+				default:
+					if ix, err := indexes.OpenWithReader_SigToCid(rd); err == nil {
+						ix.Meta()
+					}
+				}
+			})
+			cp := set.clone()
+			cp.files[role] = path
+			cfg := cp.write(filepath.Join(dir, "epoch.yml"))
+			run("load", len(bad), func() {
+				if ep, err := loadEpoch(cfg); err == nil {
+					ep.Close()
+				}
+			})
 		default:
 			// a copy of the epoch directory with one file corrupted: load and query through the server
 			role := c10roles[t.Intn(5)]
